@@ -58,6 +58,12 @@ def plan(tier):
             "simple_len_w_minus_1", "simple_len_w_plus_1_refused", "ambig", "wildcard", "k_ge_m", "k_255",
             "k_unbounded", "empty_text", "long_block_exact", "long_block_plus_1", "long_3plus_blocks_small_k",
             "long_u64_multi_block", "long_tables", "long_front_loaded_edits", "long_unary_run_to_block_boundary", "long_budget_exhausted_at_seam",
+            # guided search (am_blockmodel.rs): rare transitions of the block machine reached, and inputs that
+            # tell a perturbed copy of the machine from the machine itself
+            "blk_kept_at_k_plus_w_minus_1", "blk_drop_while_growable", "blk_grow_with_carry_plus", "blk_grow_after_drop",
+            "blk_distinguishes_drop_threshold_minus_1", "blk_distinguishes_shrink_then_grow",
+            "blk_distinguishes_grow_without_carry", "blk_distinguishes_grow_strict",
+            "blk_distinguishes_grow_without_neg_carry", "blk_distinguishes_add_offset_sign", "blk_distinguishes_hin_sign",
             # ukkonen
             "nonunit_cost", "reuse_mixed_lengths", "capacity_below_m",
             # dist
@@ -70,7 +76,7 @@ def plan(tier):
                 "thorough) plus |p| in {1,2,w/2+1,w-1,w,w+1(refused)} and 1-5 blocks of u8, u16/u32 blocks, u64 blocks "
                 "with |p| in {63,64,65,128,129,200}; texts empty, shorter than p, p, mutated p, planted approximate and "
                 "partial copies (for the block version also copies whose edits all lie left of a block boundary) up to "
-                "300 symbols; unary runs filling the leading blocks exactly followed by a tail, the text run 1-3 symbols longer (exact hit, k=0) or with one substitution; hits of distance exactly k whose k edits all lie left of a block seam (head v x c^r | B, text v* c^(r+1) B), enumerated over u8/u16 blocks, 2-3 blocks, every seam, k<=3. ukkonen: one object reused for patterns of different lengths, unit "
+                "300 symbols; unary runs filling the leading blocks exactly followed by a tail, the text run 1-3 symbols longer (exact hit, k=0) or with one substitution; hits of distance exactly k whose k edits all lie left of a block seam (head v x c^r | B, text v* c^(r+1) B), enumerated over u8/u16 blocks, 2-3 blocks, every seam, k<=3; guided search (texts = truncated occurrence followed by an (in)exact occurrence, every truncation point, k<=2, binary/ternary patterns of 2-3 u8/u16 blocks): inputs on which a transcription of the specification's block machine reaches its rare transitions (block kept at bottom k+w-1, drop while the re-activation condition holds, block appended with carry +1 / directly after a drop) or on which one of 7 perturbed copies of the machine reports other hits; the band profile computed by the transcription is checked by TLC against BlkStep (MODEL-DRIFT if different). ukkonen: one object reused for patterns of different lengths, unit "
                 "cost and cost tables with entries 0..3 (also non-zero diagonal). dist: all pairs over {a,b} up to "
                 "length 3/4, lengths around the SIMD lanes up to 129 (300 thorough), bounds {0,d-1,d,d+1,max-1,max,"
                 "max+1,u32::MAX}, Hamming up to 3000 symbols. distinct_nontrivial counts runs (distinct by construction: "
